@@ -5,6 +5,8 @@
 //!   vharness record <group> <seed> <tier> <trace.ndjson> <out.json>
 //!       run a randomized driver against the real API and write an ndjson trace for TLC
 
+#![allow(dead_code)]
+mod layers;
 mod tensors;
 mod util;
 
@@ -15,6 +17,8 @@ fn main() {
     let args: Vec<String> = std::env::args().collect();
     util::silence_panics();
     let mut rep = util::Report::default();
+    let seed_env: u64 = std::env::var("VERIF_SEED").ok().and_then(|s| s.parse().ok()).unwrap_or(1);
+    let mut rng = util::Rng::new(seed_env);
     match args.get(1).map(|s| s.as_str()) {
         Some("replay") => {
             let file = std::fs::File::open(&args[2]).expect("cases file");
@@ -25,11 +29,11 @@ fn main() {
                 }
                 let case: Value = serde_json::from_str(&line).expect("case json");
                 rep.cases += 1;
-                if rep.samples.len() < 2 {
+                if rep.cases == 2 || rep.cases == 400 || rep.cases == 4000 {
                     rep.sample(case.clone());
                 }
                 let group = case["group"].as_str().unwrap_or("").to_string();
-                let outcome = util::guarded(|| dispatch(&group, &case, &mut rep));
+                let outcome = util::guarded(|| dispatch(&group, &case, &mut rep, &mut rng));
                 if let Err(e) = outcome {
                     // A panic that escaped a handler is a harness defect, not a verdict.
                     rep.notes.push(format!("harness error in group {}: {}", group, e));
@@ -45,6 +49,7 @@ fn main() {
             let mut trace: Vec<Value> = Vec::new();
             match group {
                 "reshape" => tensors::record_reshape(seed, tier, &mut trace, &mut rep),
+                "arith" => tensors::record_arith(seed, tier, &mut trace, &mut rep),
                 _ => panic!("unknown record group {}", group),
             }
             let mut out = std::io::BufWriter::new(std::fs::File::create(&args[5]).unwrap());
@@ -61,9 +66,11 @@ fn main() {
     }
 }
 
-fn dispatch(group: &str, case: &Value, rep: &mut util::Report) {
+fn dispatch(group: &str, case: &Value, rep: &mut util::Report, rng: &mut util::Rng) {
     match group {
         "reshape" => tensors::replay_reshape(case, rep),
+        "arith" => tensors::replay_arith(case, rep, rng),
+        "layer" => layers::replay_layer(case, rep),
         _ => panic!("unknown group {}", group),
     }
 }
